@@ -71,14 +71,15 @@ func (c *Ctx) observeList(l, twin string, obs string) {
 		m.Slice(l)
 	case "contains":
 		m.Contains(l, gvInt(1))
-		m.IndexOf(l, gvInt(2))
 		m.IndexOf(l, gvBool(true))
 		m.IndexOf(l, gvInt(40))
+		m.IndexOf(l, gvInt(2)) // the last lookup before the next step and the first after it are the same query
 	case "sublist":
 		m.SubList(l, 0, 0)
 	case "concat":
 		m.Concat(l, twin)
 	case "gettf":
+		m.GetTF(l, "#3#0") // first and last read of an observation are the same path into a nested container
 		m.GetTF(l, "#0")
 		m.TypeOfTF(l, "#1")
 		m.GetTF(l, "#3#0")
@@ -88,6 +89,7 @@ func (c *Ctx) observeList(l, twin string, obs string) {
 		m.GetTF(l, "#4.a")
 		m.GetTF(l, "#4.z")
 		m.TypeOfTF(l, "#4.z")
+		m.GetTF(l, "#3#0")
 	case "nativeslice":
 		m.NativeSlice(l)
 	case "allk":
@@ -125,7 +127,7 @@ func (c *Ctx) observeList(l, twin string, obs string) {
 
 // listMutators: every way the content of a list can change, including through a nested handle.
 var listMutators = []string{"settf-samekind", "add", "insert0", "insertmid", "replace0", "replacelast", "delete0", "deletelast", "pop", "clear", "reverse",
-	"settf-leaf", "settf-beyond", "unsettf", "sort", "inner-add", "inner-set", "settf-deep", "add-bool", "replace-samekind", "rejected-batch", "rejected-insert", "dup-front", "dup-replace0", "none"}
+	"settf-leaf", "settf-beyond", "unsettf", "sort", "inner-add", "inner-set", "settf-deep", "add-bool", "replace-samekind", "rejected-batch", "rejected-insert", "dup-front", "dup-replace0", "inner-replace", "none"}
 
 func (c *Ctx) mutateList(l, inner, innerO string, mut string) {
 	m := c.M
@@ -196,6 +198,14 @@ func (c *Ctx) mutateList(l, inner, innerO string, mut string) {
 	case "inner-set":
 		if innerO != "" {
 			m.OSet(innerO, gvStr("z"), gvInt(99))
+		}
+	case "inner-replace":
+		// an existing slot of a nested container changes: nothing the root could have remembered stays true
+		if inner != "" {
+			m.Replace(inner, 0, gvInt(77))
+		}
+		if innerO != "" {
+			m.OSet(innerO, gvStr("a"), gvInt(77))
 		}
 	case "settf-deep":
 		if inner != "" {
@@ -423,6 +433,7 @@ func (c *Ctx) observeObj(o, twin string, obs string) {
 		m.Merge(o, twin)
 		m.Merge(twin, o)
 	case "ogettf":
+		m.OGetTF(o, ".l#0")
 		m.OGetTF(o, ".a")
 		m.OTypeOfTF(o, ".l#0")
 		m.OGetTF(o, ".l#2")
@@ -430,6 +441,7 @@ func (c *Ctx) observeObj(o, twin string, obs string) {
 		m.OGetTF(o, ".o.k")
 		m.OGetTF(o, ".o.z")
 		m.OTypeOfTF(o, ".o.z")
+		m.OGetTF(o, ".l#0")
 	case "nativedict":
 		m.NativeDict(o)
 	case "oforeach":
@@ -445,7 +457,7 @@ func (c *Ctx) observeObj(o, twin string, obs string) {
 	}
 }
 
-var objMutators = []string{"set-new", "set-samekind", "set-otherkind", "set-bool-flip", "set-empty-string", "unset", "unset-then-set", "clear", "clear-refill", "settf", "unsettf", "inner-add", "inner-set", "rejected-set", "none"}
+var objMutators = []string{"set-new", "set-samekind", "set-otherkind", "set-bool-flip", "set-empty-string", "unset", "unset-then-set", "clear", "clear-refill", "settf", "unsettf", "inner-add", "inner-set", "inner-replace", "rejected-set", "none"}
 
 func (c *Ctx) mutateObj(o, inner, innerO string, mut string) {
 	m := c.M
@@ -491,6 +503,9 @@ func (c *Ctx) mutateObj(o, inner, innerO string, mut string) {
 		m.Add(inner, gvInt(99))
 	case "inner-set":
 		m.OSet(innerO, gvStr("z"), gvInt(99))
+	case "inner-replace":
+		m.Replace(inner, 0, gvInt(77))
+		m.OSet(innerO, gvStr("k"), gvInt(77))
 	}
 }
 
